@@ -417,6 +417,31 @@ def check_use(rep, repo, f):
     uniq = {}
     for t, e in draws:
         uniq[t] = e
+    # every list that is returned is such a draw, on every path (no unweighted shortcut for some lengths)
+    lists_t = rv[1][0] if (rv[0] == 'tuple' and rv[1]) else rv
+    elems = []
+    if lists_t[0] == 'accum':
+        elems = [v for op, idx, v, ch in lists_t[2] if op in ('setidx', 'append')]
+    elif lists_t[0] == 'comp':
+        elems = [lists_t[2]]
+    elif lists_t[0] == 'cat':
+        elems = [p_[2] for p_ in lists_t[1] if p_[0] == 'comp']
+    def alts(t, conds):
+        if t[0] == 'ite':
+            return alts(t[2], conds + [t[1]]) + alts(t[3], conds + [NOT(t[1])])
+        return [(conds, t)]
+    n_el = 0
+    for el in elems:
+        for conds, t in alts(el, []):
+            n_el += 1
+            inner = t
+            while inner[0] == 'call' and inner[1] in (S('list'), S('tuple')) or (inner[0] == 'call' and show(inner[1]) in ('np.array', 'np.asarray')):
+                inner = inner[2][0]
+            if inner not in uniq:
+                rep.fail('C17.R5', g.where, 'every preference list is drawn with the popularity weights', got='when %s the list is %s' % (' and '.join(show(c)[:60] for c in conds) or 'always', show(inner)[:100]),
+                         want='np.random.choice(agents, length, replace=False, p=weights) on every path', construct='unweighted list: ' + show(inner)[:60])
+    if elems and n_el:
+        rep.count('list_element_paths', n_el)
     rep.check(bool(uniq), 'C17.R5', g.where, 'preference lists are drawn with the popularity weights', got='%d weighted draws' % len(uniq), construct='no weighted draw')
     for t, e in uniq.items():
         kw = dict(t[3])
